@@ -10,6 +10,30 @@ from .state import RaiseEx
 from .types import SV, TBool, TInt, TList, TOMap, TOpt, TSeq, TSet, TTuple, Unsupported, lift
 
 
+def _pattern_terms(x, i):
+    """terms of the i-th source element usable as quantifier triggers (so that facts fire from either side)"""
+    out = []
+    todo = [x]
+    while todo:
+        y = todo.pop()
+        if isinstance(y, (tuple, list)):
+            todo.extend(y)
+        elif isinstance(y, SV) and z3.is_app(y.t) and y.t.num_args() > 0 and not z3.is_const(y.t):
+            if any(z3.eq(i, a) for a in _subterms(y.t, 40)) and y.t.decl().kind() == z3.Z3_OP_SELECT:
+                out.append(y.t)
+    return out[:2]
+
+
+def _subterms(t, limit):
+    seen = []
+    todo = [t]
+    while todo and len(seen) < limit:
+        u = todo.pop()
+        seen.append(u)
+        todo.extend(u.children())
+    return seen
+
+
 class View:
     """an indexable, finite iterable: n elements, element(i) may be a Python tuple of values"""
 
@@ -115,6 +139,7 @@ class OMapMixin:
         self.frames.append({})
         try:
             x = view.elem(SV(i, TInt))
+            self._src_patterns = _pattern_terms(x, i)
             self.assign(target, x)
             vals = [self.eval(e) for e in exprs]
             extra = self.st.pc[n0 + 1:]
@@ -142,7 +167,8 @@ class OMapMixin:
                         "keys produced by a dict comprehension must be pairwise distinct (otherwise entries collapse)")
             self.st.pc.append(ks.length().t == view.n.t)
             self.st.pc.append(z3.ForAll([i], z3.Implies(guard, z3.And(ks[SV(i, TInt)].t == k.t, ty.at(r, k).t == v.t,
-                                                                      specfn.list_elems(ks).contains(k).t)), patterns=[ks[SV(i, TInt)].t]))
+                                                                      specfn.list_elems(ks).contains(k).t)),
+                                       patterns=[ks[SV(i, TInt)].t] + self._src_patterns))
             self.st.pc.append(self.omap_wf(r).t)
             # (the converse -- every key of the domain is a produced key -- is left out: it makes a matching loop)
             return r
@@ -152,7 +178,7 @@ class OMapMixin:
             ty = TList(v.ty)
             r = ty.fresh("lcomp")
             self.st.pc.append(r.length().t == view.n.t)
-            self.st.pc.append(z3.ForAll([i], z3.Implies(guard, r[SV(i, TInt)].t == v.t), patterns=[r[SV(i, TInt)].t]))
+            self.st.pc.append(z3.ForAll([i], z3.Implies(guard, r[SV(i, TInt)].t == v.t), patterns=[r[SV(i, TInt)].t] + self._src_patterns))
             return r
         raise Unsupported(f"{kind} comprehension over an ordered symbolic collection")
 
